@@ -572,6 +572,17 @@ def _lambdify_mv(mv):
     return CodegenOutput(tuple(mv.keys()), func)
 
 
+def _keyorder_suffix(algebra, mvs) -> str:
+    """
+    Generated functions are cached per *ordered* tuple of keys, while :code:`type_number` only encodes
+    the set of keys. This suffix distinguishes multivectors that store the same basis blades in a
+    non-canonical order, such that every cached function has its own name in :code:`algebra.numspace`.
+    """
+    index = {key: i for i, key in enumerate(algebra.canon2bin.values())}
+    return ''.join(f"_o{i}_{'_'.join(str(key) for key in mv.keys())}" for i, mv in enumerate(mvs)
+                   if list(mv.keys()) != sorted(mv.keys(), key=index.__getitem__))
+
+
 def do_codegen(codegen, *mvs) -> CodegenOutput:
     """
     :param codegen: callable that performs codegen for the given :code:`mvs`. This can be any callable
@@ -595,6 +606,7 @@ def do_codegen(codegen, *mvs) -> CodegenOutput:
         funcname = f'{codegen.__name__}_' + '_x_'.join(f"{mv.type_number}" for mv in mvs)
         args = {arg_name: arg.values() for arg_name, arg in zip(string.ascii_uppercase, mvs)}
         dependencies = None
+    funcname += _keyorder_suffix(algebra, mvs)
 
     # Sort the keys in canonical order
     res = {bin: res[bin] if isinstance(res, dict) else getattr(res, canon)
@@ -616,6 +628,7 @@ def do_compile(codegen, *tapes):
 
     res = codegen(*tapes)
     funcname = f'{codegen.__name__}_' + '_x_'.join(f"{tape.type_number}" for tape in tapes)
+    funcname += _keyorder_suffix(algebra, tapes)
     funcstr = f"def {funcname}({', '.join(t.expr for t in tapes)}):"
     if not isinstance(res, str):
         funcstr += f"    return {res.expr}"
